@@ -825,6 +825,24 @@ func (f *Frame) calleeTypeArgs(call *ast.CallExpr, fn *types.Func) (map[*types.T
 	tps := sig.TypeParams()
 	ts := map[*types.TypeParam]types.Type{}
 	byName := map[string]types.Type{}
+	if rtps := sig.RecvTypeParams(); rtps != nil && rtps.Len() > 0 {
+		// method of a generic type: the type arguments are those of the receiver expression's type
+		if sel, ok := ast.Unparen(call.Fun).(*ast.SelectorExpr); ok {
+			if rt := f.info.TypeOf(sel.X); rt != nil {
+				rt = f.typ(rt)
+				if p, ok := rt.Underlying().(*types.Pointer); ok {
+					rt = p.Elem()
+				}
+				if n, ok := rt.(*types.Named); ok && n.TypeArgs() != nil && n.TypeArgs().Len() == rtps.Len() {
+					for i := 0; i < rtps.Len(); i++ {
+						t := f.typ(n.TypeArgs().At(i))
+						ts[rtps.At(i)] = t
+						byName[rtps.At(i).Obj().Name()] = t
+					}
+				}
+			}
+		}
+	}
 	if tps == nil || tps.Len() == 0 {
 		return ts, byName
 	}
